@@ -22,11 +22,12 @@ use vh::io::*;
 struct Rendered { content_type: Option<String>, bytes: Vec<u8>, query_string: Option<String> }
 
 fn render_wire(w: &J, style: u32) -> Rendered {
+    let ws = w["ws"].as_str().unwrap_or_else(|| tool_error("wire form without ws"));
     match w["enc"].as_str().unwrap() {
-        "json" | "json-batch" => Rendered { content_type: Some("application/json".into()), bytes: json_text(&w["body"], style).into_bytes(), query_string: None },
+        "json" | "json-batch" => Rendered { content_type: Some("application/json".into()), bytes: json_text(&w["body"], style, ws).into_bytes(), query_string: None },
         "get" => {
             let pairs: Vec<(String, String)> = w["params"].as_array().unwrap().iter().map(|p| {
-                let v = if p["kind"] == "raw" { atom_text(p["a"].as_str().unwrap()) } else { json_text(&p["j"], style) };
+                let v = if p["kind"] == "raw" { atom_text(p["a"].as_str().unwrap()) } else { json_text(&p["j"], style, ws) };
                 (p["key"].as_str().unwrap().to_string(), v)
             }).collect();
             let qs = serde_urlencoded::to_string(&pairs).unwrap_or_else(|e| tool_error(&format!("urlencode: {e}")));
@@ -36,7 +37,7 @@ fn render_wire(w: &J, style: u32) -> Rendered {
             let parts: Vec<MpPart> = w["parts"].as_array().unwrap().iter().map(|p| MpPart {
                 name: p["name"].as_str().unwrap().to_string(), filename: None,
                 content_type: if style & 2 == 2 { Some("application/json".into()) } else { None },
-                data: json_text(&p["j"], style).into_bytes(),
+                data: json_text(&p["j"], style, ws).into_bytes(),
             }).collect();
             Rendered { content_type: Some(multipart_content_type()), bytes: render_multipart(&parts), query_string: None }
         }
